@@ -39,6 +39,8 @@ type Env struct {
 	bound  map[string]bool
 	lookup func(name string) (Val, bool)
 	entry  map[string]Val // entry values of parameters (for old(x) and x0)
+	sset   map[string]map[string]string
+	callResults map[string][]Val
 	noUnfold bool
 	depth  int
 }
@@ -527,10 +529,30 @@ func (g *Gen) nilOf(t types.Type) Val {
 	return Val{T: "0", Ty: t}
 }
 
+func isNumeral(s string) bool {
+	if s == "" {
+		return false
+	}
+	for _, c := range s {
+		if c < '0' || c > '9' {
+			return false
+		}
+	}
+	return true
+}
+
 func (g *Gen) trBin(x EBin, env *Env) Val {
 	switch x.Op {
 	case "&&", "||", "==>", "<==>":
 		l := g.tr(x.L, env)
+		// lazy: a constant-false antecedent / conjunct makes the other side irrelevant (it may mention
+		// names that do not exist at this program point)
+		if (x.Op == "==>" && l.T == "false") || (x.Op == "||" && l.T == "true") {
+			return Val{T: "true", Ty: tyBool}
+		}
+		if x.Op == "&&" && l.T == "false" {
+			return Val{T: "false", Ty: tyBool}
+		}
 		r := g.tr(x.R, env)
 		if sortOf(l.Ty) != "Bool" || sortOf(r.Ty) != "Bool" {
 			trFail("boolean operator %s on non-boolean operands in %s", x.Op, exprString(x))
@@ -563,6 +585,12 @@ func (g *Gen) trBin(x EBin, env *Env) Val {
 				o = r
 			}
 			t = fmt.Sprintf("(= (s-arr %s) 0)", o.T)
+		} else if isNumeral(l.T) && isNumeral(r.T) {
+			if l.T == r.T {
+				t = "true"
+			} else {
+				t = "false"
+			}
 		} else {
 			t = fmt.Sprintf("(= %s %s)", l.T, r.T)
 		}
@@ -741,6 +769,32 @@ func (g *Gen) trCall(x ECall, env *Env) Val {
 			ref = "(s-arr " + v.T + ")"
 		}
 		return Val{T: fmt.Sprintf("(select %s %s)", g.arr(h, "alloc", "Bool"), ref), Ty: tyBool}
+	case "resultof":
+		// resultof("callee", k, j): j-th result of the k-th call of callee in this function (1-based)
+		ks, ok := x.Args[0].(EStr)
+		kn, ok2 := x.Args[1].(EInt)
+		jn, ok3 := x.Args[2].(EInt)
+		if !ok || !ok2 || !ok3 {
+			trFail("resultof(\"callee\", k, j)")
+		}
+		rs := env.callResults[ks.V]
+		if int(kn.V) < 1 || int(kn.V) > len(rs) {
+			trFail("resultof: %s has %d calls before this point", ks.V, len(rs))
+		}
+		r := rs[kn.V-1]
+		if len(r.Tup) > 0 {
+			if int(jn.V) < 1 || int(jn.V) > len(r.Tup) {
+				trFail("resultof: bad result index")
+			}
+			return r.Tup[jn.V-1]
+		}
+		return r
+	case "adv", "advOnly":
+		ks, ok := x.Args[1].(EStr)
+		if !ok {
+			trFail("%s needs a string key", x.Fn)
+		}
+		return g.trAdv(x.Fn, arg(0), ks.V, env)
 	case "min":
 		a, b := arg(0), arg(1)
 		return Val{T: fmt.Sprintf("(ite (<= %s %s) %s %s)", a.T, b.T, a.T, b.T), Ty: tyInt}
